@@ -37,13 +37,15 @@ var (
 type planKey struct{}
 
 // faultPlan: the n-th datastore event of a request (a read call or a Next on one of its iterators)
-// triggers the fault.  mode 1: cancel the request context; 2: return context.Canceled; 3: return
-// context.DeadlineExceeded; 4: return an unrelated error.
+// triggers the fault.  mode 1: cancel the request context before the read; 2: return context.Canceled;
+// 3: return context.DeadlineExceeded; 4: return an unrelated error; 5: cancel the request context
+// WHILE the read is in progress (the read itself succeeds and returns its tuple).
 type faultPlan struct {
 	mode      int
 	countdown atomic.Int32
 	cancel    context.CancelFunc
 	fired     atomic.Bool
+	during    atomic.Bool // mode 5: cancel after the delegate call returned
 }
 
 func (p *faultPlan) tick() error {
@@ -57,6 +59,9 @@ func (p *faultPlan) tick() error {
 	switch p.mode {
 	case 1:
 		p.cancel()
+		return nil
+	case 5:
+		p.during.Store(true)
 		return nil
 	case 2:
 		return context.Canceled
@@ -83,7 +88,11 @@ func (f *faultIter) Next(ctx context.Context) (*openfgav1.Tuple, error) {
 	if err := f.plan.tick(); err != nil {
 		return nil, err
 	}
-	return f.TupleIterator.Next(ctx)
+	t, err := f.TupleIterator.Next(ctx)
+	if f.plan != nil && f.plan.during.CompareAndSwap(true, false) {
+		f.plan.cancel()
+	}
+	return t, err
 }
 
 func (f *faultIter) Stop() {
@@ -499,9 +508,9 @@ func runE2E(w *rec.Writer, d caseDesc, wmu *sync.Mutex) {
 		switch {
 		case r.Chance(1, 4): // a request that is cancelled / times out / meets a datastore error somewhere
 			faulted++
-			mode := 1
+			mode := rec.Pick(r, []int{1, 5, 5})
 			if pair != "on_shared" {
-				mode = rec.Pick(r, []int{1, 1, 2, 3, 4})
+				mode = rec.Pick(r, []int{1, 1, 5, 5, 5, 2, 3, 4})
 			}
 			ctx, cancel := context.WithCancel(context.Background())
 			p := &faultPlan{mode: mode, cancel: cancel}
